@@ -98,14 +98,18 @@ Definition joint_case_ok (i : binput) : bool :=
               end
   end.
 
-Lemma builder_ok_upto3 : forall_inputs 1 builder_case_ok && forall_inputs 2 builder_case_ok && forall_inputs 3 builder_case_ok = true.
+Lemma builder_ok_1 : forall_inputs 1 builder_case_ok = true.
+Proof. vm_cast_no_check (@eq_refl bool true). Qed.
+Lemma builder_ok_2 : forall_inputs 2 builder_case_ok = true.
+Proof. vm_cast_no_check (@eq_refl bool true). Qed.
+Lemma builder_ok_3 : forall_inputs 3 builder_case_ok = true.
 Proof. vm_cast_no_check (@eq_refl bool true). Qed.
 
 Lemma builder_case_ok_elim i b ss kl kr :
   builder_case_ok i = true -> prepared i = Some b -> build i = Built ss kl kr -> excluded b = false ->
   plan_ok (goal_of b) (i_region i) ss = true.
 Proof.
-  unfold builder_case_ok. intros H Hp Hb He. rewrite Hp, Hb, He in H. exact H.
+  unfold builder_case_ok. intros H Hp Hb He. rewrite Hp, Hb, He in H. cbn [orb] in H. exact H.
 Qed.
 
 Lemma builder_plan_ok_bounded_pf :
@@ -120,13 +124,11 @@ Lemma builder_plan_ok_bounded_pf :
     plan_ok (goal_of b) (i_region i) ss = true.
 Proof.
   intros n Hn ov ol tv tl lok m force Hov Hol Htv Htl Hlok Hm b ss kl kr i Hp Hb He.
-  pose proof builder_ok_upto3 as H.
-  apply andb_true_iff in H as [H H3]. apply andb_true_iff in H as [H1 H2].
   assert (Hc : builder_case_ok i = true).
   { unfold i. destruct n as [|[|[|[|n]]]]; try lia.
-    - exact (forall_inputs_spec 1 builder_case_ok H1 ov ol tv tl lok m force Hov Hol Htv Htl Hlok Hm).
-    - exact (forall_inputs_spec 2 builder_case_ok H2 ov ol tv tl lok m force Hov Hol Htv Htl Hlok Hm).
-    - exact (forall_inputs_spec 3 builder_case_ok H3 ov ol tv tl lok m force Hov Hol Htv Htl Hlok Hm). }
+    - exact (forall_inputs_spec 1 builder_case_ok builder_ok_1 ov ol tv tl lok m force Hov Hol Htv Htl Hlok Hm).
+    - exact (forall_inputs_spec 2 builder_case_ok builder_ok_2 ov ol tv tl lok m force Hov Hol Htv Htl Hlok Hm).
+    - exact (forall_inputs_spec 3 builder_case_ok builder_ok_3 ov ol tv tl lok m force Hov Hol Htv Htl Hlok Hm). }
   eapply builder_case_ok_elim; eauto.
 Qed.
 
